@@ -285,11 +285,27 @@ def main(run):
         "harness/h_block.c includes src/coap_block.c to reach its static helpers"]
     run.assumptions = ["allocation never fails (C18 covers failures)",
                        "UDP sessions: no BERT (SZX 7 refused); Q-Block (RFC 9177) switched off"]
+    import time
+    t0 = time.time()
+    phases = {}
+
+    def mark(name):
+        nonlocal t0
+        phases[name] = round(time.time() - t0, 1)
+        t0 = time.time()
     run.prove()
+    mark("prove")
     model = vlib.build_model()
     drv = vlib.build_driver("h_block", ["h_block.c"])
+    mark("build")
     leaf(run, model, drv)
+    mark("leaf")
     e2e(run, model)
+    mark("e2e")
     peer(run, model)
+    mark("peer")
     if run.tier != "quick":
         sanitized(run)
+        mark("sanitized")
+    run.cov["phase_seconds"] = phases
+    vlib.log("C09 phases: %s" % phases)
